@@ -311,13 +311,16 @@ func (c *Real32) Erfc(a ConstScalar) Scalar {
 }
 func (c *Real32) LogErfc(a ConstScalar) Scalar {
   x := a.GetFloat64()
-  t := math.Erfc(x)
   v0 := special.LogErfc(x)
+  // d/dx log erfc(x) = -2/sqrt(pi) exp(-x^2)/erfc(x) is evaluated on log
+  // scale: exp(x^2) overflows for |x| > 26.6 and erfc(x) underflows for
+  // x > 26.5, which made the derivatives NaN there
   f1 := func() float64 {
-    return -2.0/(math.Exp(a.GetFloat64()*a.GetFloat64())*special.M_SQRTPI*t)
+    return -2.0/special.M_SQRTPI*math.Exp(-x*x - v0)
   }
   f2 := func() float64 {
-    return 4.0*(math.Exp(x*x)*special.M_SQRTPI*t*x - 1)/(math.Exp(2*x*x)*math.Pi*t*t)
+    g := f1()
+    return -g*(2.0*x + g)
   }
   return c.monadicLazy(a, v0, f1, f2)
 }
